@@ -596,6 +596,91 @@ def r8(ctx):
         ctx.emit('C11-R8', True, COUNTTABLE, g, f'{len(rets)} early return(s) of {AR}: only the verdict of read_should_be_counted leaves early', key='no-filter-after-acceptance')
 
 
+def assign_model(ctx):
+    """assignReads run by the abstract interpreter on a model read (tags DS / GN / SM with fixed values) for every combination of binning, by-value counting,
+    feature order, pairing and window list: the table must hold exactly the cells the options prescribe.  (ok, cases, witness) or None when outside the
+    interpreted subset.  Cached per run."""
+    if hasattr(ctx, '_assign_model'):
+        return ctx._assign_model
+    import collections
+    from ..consteval import run_function, Raised, Unfoldable
+    ctx._assign_model = None
+    f = ctx.fn(COUNTTABLE, AR)
+    params = [a.arg for a in f.args.args]
+    if params[:6] != ['read', 'countTable', 'args', 'joinFeatures', 'featureTags', 'sampleTags']:
+        return None
+    vals = {'DS': '1500', 'GN': '7', 'SM': 'cellA', 'ZZ': '0'}
+    windows = [(1000, 2000), (1500, 2500), (9500, 10500)]
+
+    class Table(dict):
+        def __missing__(self, k):
+            self[k] = collections.Counter()
+            return self[k]
+
+    def hook(ev, call, env):
+        d = dotted(call.func) or ''
+        if d == RS:
+            return True
+        if d == 'readTag':
+            a = [ev.ev(x, env) for x in call.args]
+            return vals[a[1]]
+        if d in ('coordinate_to_bins',):
+            return list(windows)
+        if d.endswith('.has_tag'):
+            return False
+        return NotImplemented
+    n = 0
+    try:
+        for binv, byv, tags, paired, nodiv, keep in itertools.product((None, 1000), (None, 'GN', 'ZZ'), (['DS', 'GN'], ['GN', 'DS'], ['DS'], ['GN', 'ZZ', 'DS']), (False, True), (False, True), (False, True)):
+            if byv is not None and byv not in tags:
+                continue
+            if binv is not None and 'DS' not in tags:
+                continue
+            env = {'args.bin': binv, 'args.binTag': 'DS', 'args.byValue': byv, 'args.r1only': False, 'args.r2only': False, 'args.doNotDivideFragments': nodiv,
+                   'args.divideMultimapping': False, 'args.splitFeatures': False, 'args.sliding': None, 'args.keepOverBounds': keep, 'args.ref_lengths': {'chr1': 10000},
+                   'args.bedfile': None, 'args.featureDelimiter': ',', 'read.reference_name': 'chr1', 'read.is_paired': paired, 'read.mate_is_unmapped': False}
+            table = Table()
+            n += 1
+            case = {'bin': binv, 'binTag': 'DS', 'byValue': byv, 'featureTags': tags, 'paired with mapped mate': paired, 'doNotDivideFragments': nodiv, 'keepOverBounds': keep, 'tag values': vals}
+            for _ in range(2):
+                run_function(f, ['<read>', table, '<args>', True, list(tags), ['SM'], {}, None], env=dict(env), call_hook=hook, budget=40000)
+            feats = [vals[t] for t in tags if not (binv is not None and t == 'DS') and not (byv is not None and t == byv)]
+            w = float(vals[byv]) if byv is not None else (0.5 if paired and not nodiv else 1)
+            want = {}
+            if binv is not None:
+                for a_, b_ in windows:
+                    if keep or not (a_ < 0 or b_ > 10000):
+                        want[tuple(feats + [a_, b_])] = 2 * w
+            else:
+                want[tuple(feats) if len(feats) != 1 else feats[0]] = 2 * w
+            got = {k_: dict(v_) for k_, v_ in table.items()}
+            if got != {('cellA',): want}:
+                ctx._assign_model = (False, n, dict(case, table=str(got), expected=str({('cellA',): want})))
+                return ctx._assign_model
+    except (Unfoldable, Raised):
+        return None
+    except Exception:
+        return None
+    ctx._assign_model = (True, n, None)
+    return ctx._assign_model
+
+
+@rule('C11', 'C11-R9', 'a counted read lands under its own sample and feature values at its weight: assignReads, run by the abstract interpreter on a model read for every combination '
+                       'of binning / by-value counting / feature order / pairing / bounds option (each read added twice), leaves exactly the cells the options prescribe - the key holds '
+                       'every feature tag except the bin tag WHEN binning is on and the value tag WHEN by-value counting is on, windows outside the contig are dropped unless kept, '
+                       'and the second read adds to the first')
+def r9(ctx):
+    f = ctx.fn(COUNTTABLE, AR)
+    m = assign_model(ctx)
+    if m is None:
+        ctx.emit('C11-R9', True, COUNTTABLE, f, 'assignReads uses constructs outside the interpreted subset: decided by the structural rules only', key='assignReads-model', nontrivial=False)
+        return
+    ok, n, wit = m
+    ctx.counters['interpreted_cases'] = ctx.counters.get('interpreted_cases', 0) + n
+    ctx.emit('C11-R9', ok, COUNTTABLE, f, f'{n} option combinations: the table holds exactly the prescribed cells' if ok else f'option combination {wit}', key='assignReads-model', witness=wit,
+             what='assignReads: a counted read is stored under a key / weight other than its own feature values and documented weight')
+
+
 META = {
     'text': ('Decides: every filter option of the parser is consulted by read_should_be_counted and can only reject (single trailing return True); '
              'each filter test equals its documented predicate on every case (mate selection, MAPQ <, proper pairs, indels, soft clips, edit distance '
